@@ -325,9 +325,10 @@ let addAll (kw : String) (acc : Entry × TState) : Entry × TState :=
   | _ => acc      -- prefix, identity, …
 
 /-- The `fuel + 1` branch of `toEntry` around its two kinds of recursive calls: `usesRes` stands
-for the result of the `uses` case, `step` for the local field step of the directory case. -/
+for the result of the `uses` case, `dirRes` for the fold of the local field step over the fields of
+the directory case. -/
 def skeleton (env : Env) (root : Mod) (scope : List Stmt) (n : Stmt) (visiting : List NodeId) (st : TState)
-    (usesRes : Entry × TState) (step : Bool → Entry × TState → String → Entry × TState) : Entry × TState :=
+    (usesRes : Entry × TState) (dirRes : Bool → Entry → Entry × TState) : Entry × TState :=
     let isMod := n.kw == "module" || n.kw == "submodule"
     -- entry cache (module-level nodes: the only ones whose conversion depends on `st`)
     match (if isMod then st.cache.find? (·.1 == root.seq) else none) with
@@ -357,7 +358,7 @@ def skeleton (env : Env) (root : Mod) (scope : List Stmt) (n : Stmt) (visiting :
         ({ base with default := match n.one? "default" with | some d => [d.arg] | none => [] }, [])
       else (base, [])
     let e0 : Entry := .mk { base with errors := kerrs } [] [] []
-    let (e, st) := (fieldOrder n.kw).foldl (step isMod) (e0, st)
+    let (e, st) := dirRes isMod e0
     if isMod then (e, { st with cache := st.cache ++ [(root.seq, e)] })
     else if n.kw == "grouping" then (e, { st with gcache := st.gcache ++ [(nodeId root n, e)] })
     else (e, st)
@@ -374,7 +375,7 @@ def toEntryBody (env : Env) (fuel : Nat) (rec : Rec) : Rec := fun root scope n v
     (match (findGrouping env.reg env.linked (2 * fuel + 16) root scope n.arg []).1 with
       | none => (errorEntry root n "unknown-group", st)
       | some (g, groot, gscope) => rec groot gscope g (visiting' root n visiting) st)
-    (fun isMod => stepB env rec root n (n :: scope) (visiting' root n visiting) isMod)
+    (fun isMod e0 => (fieldOrder n.kw).foldl (stepB env rec root n (n :: scope) (visiting' root n visiting) isMod) (e0, st))
 
 /-- The copy is faithful. -/
 theorem toEntry_succ (env : Env) (fuel : Nat) : toEntry env (fuel + 1) = toEntryBody env fuel (toEntry env fuel) := by
@@ -403,7 +404,7 @@ inductive Callee (env : Env) (root : Mod) (scope : List Stmt) (n : Stmt) (visiti
   | uses {fuel : Nat} {g : Stmt} {groot : Mod} {gscope : List Stmt} :
       (findGrouping env.reg env.linked fuel root scope n.arg []).1 = some (g, groot, gscope) →
       Callee env root scope n visiting groot gscope g (visiting' root n visiting)
-  | include_ {a : Stmt} {im : Mod} : env.includeTarget root a = some im →
+  | include_ {a : Stmt} {im : Mod} : "include" ∈ fieldOrder n.kw → env.includeTarget root a = some im →
       Callee env root scope n visiting im [] im.stmt (visiting' root n visiting)
 
 theorem foldl_ext_mem {α β} (f g : β → α → β) (l : List α) (a : β)
@@ -415,10 +416,20 @@ theorem foldl_ext_mem {α β} (f g : β → α → β) (l : List α) (a : β)
     rw [h a x (List.mem_cons_self ..)]
     exact ih _ (fun acc y hy => h acc y (List.mem_cons_of_mem _ hy))
 
+/-- Re-entering a tracked node answers the cycle error (or a cached entry): neither recursive
+result is looked at. -/
+theorem skeleton_cyc (env : Env) (root : Mod) (scope : List Stmt) (n : Stmt) (visiting : List NodeId) (st : TState)
+    (u1 u2 : Entry × TState) (d1 d2 : Bool → Entry → Entry × TState)
+    (hc : (isTracked n && visiting.contains (nodeId root n)) = true) :
+    skeleton env root scope n visiting st u1 d1 = skeleton env root scope n visiting st u2 d2 := by
+  simp only [isTracked] at hc
+  simp only [skeleton, hc, ↓reduceIte]
+
 theorem step_congr (env : Env) (r1 r2 : Rec) (root : Mod) (n : Stmt) (sub : List Stmt) (vis : List NodeId) (isMod : Bool)
     (acc : Entry × TState) (f : String)
     (hch : ∀ c st', c ∈ n.subs → r1 root sub c vis st' = r2 root sub c vis st')
-    (hinc : ∀ a im st', env.includeTarget root a = some im → r1 im [] im.stmt vis st' = r2 im [] im.stmt vis st') :
+    (hinc : f = "include" → ∀ a im st', env.includeTarget root a = some im →
+      r1 im [] im.stmt vis st' = r2 im [] im.stmt vis st') :
     stepB env r1 root n sub vis isMod acc f = stepB env r2 root n sub vis isMod acc f := by
   obtain ⟨e, st⟩ := acc
   unfold stepB
@@ -429,7 +440,7 @@ theorem step_congr (env : Env) (r1 r2 : Rec) (root : Mod) (n : Stmt) (sub : List
   -- input, output
   all_goals try (split; rfl; rename_i i heq; rw [hch i _ (mem_one_subs heq)]; done)
   -- include
-  all_goals try (apply foldl_ext_mem; intro acc a _; split; rfl; rename_i im heq; simp only [hinc a im _ heq]; done)
+  all_goals try (apply foldl_ext_mem; intro acc a _; split; rfl; rename_i im heq; simp only [hinc rfl a im _ heq]; done)
   -- augment
   all_goals try (
     have hf : List.foldl (fun (acc : List Entry × TState) a => (acc.fst ++ [(r1 root sub a vis acc.snd).fst], (r1 root sub a vis acc.snd).snd))
@@ -448,12 +459,15 @@ theorem body_congr (env : Env) (fuel : Nat) (r1 r2 : Rec) (root : Mod) (scope : 
   have hch : ∀ c st', c ∈ n.subs →
       r1 root (n :: scope) c (visiting' root n visiting) st' = r2 root (n :: scope) c (visiting' root n visiting) st' :=
     fun c st' hc => h _ _ _ _ _ (.child hc)
-  have hinc : ∀ a im st', env.includeTarget root a = some im →
+  have hinc : "include" ∈ fieldOrder n.kw → ∀ a im st', env.includeTarget root a = some im →
       r1 im [] im.stmt (visiting' root n visiting) st' = r2 im [] im.stmt (visiting' root n visiting) st' :=
-    fun a im st' ha => h _ _ _ _ _ (.include_ ha)
-  have hstep : ∀ isMod, stepB env r1 root n (n :: scope) (visiting' root n visiting) isMod =
-      stepB env r2 root n (n :: scope) (visiting' root n visiting) isMod := by
-    intro isMod; funext acc f; exact step_congr env r1 r2 root n _ _ isMod acc f hch hinc
+    fun hf a im st' ha => h _ _ _ _ _ (.include_ hf ha)
+  have hdir : (fun (isMod : Bool) (e0 : Entry) =>
+        (fieldOrder n.kw).foldl (stepB env r1 root n (n :: scope) (visiting' root n visiting) isMod) (e0, st)) =
+      (fun (isMod : Bool) (e0 : Entry) =>
+        (fieldOrder n.kw).foldl (stepB env r2 root n (n :: scope) (visiting' root n visiting) isMod) (e0, st)) := by
+    funext isMod e0
+    exact foldl_ext_mem _ _ _ _ (fun acc f hf => step_congr env r1 r2 root n _ _ isMod acc f hch (fun hfi => hinc (hfi ▸ hf)))
   have huses : (match (findGrouping env.reg env.linked (2 * fuel + 16) root scope n.arg []).1 with
       | none => (errorEntry root n "unknown-group", st)
       | some (g, groot, gscope) => r1 groot gscope g (visiting' root n visiting) st) =
@@ -465,6 +479,314 @@ theorem body_congr (env : Env) (fuel : Nat) (r1 r2 : Rec) (root : Mod) (scope : 
     · rename_i g groot gscope heq
       exact h _ _ _ _ _ (.uses heq)
   unfold toEntryBody
-  rw [huses, funext hstep]
+  rw [huses, hdir]
+
+/-! ### the measure decreases at every call site -/
+
+theorem include_field_kw {kw : String} (h : "include" ∈ fieldOrder kw) : kw = "module" ∨ kw = "submodule" := by
+  unfold fieldOrder at h
+  split at h
+  all_goals first
+    | (left; rfl)
+    | (right; rfl)
+    | (exfalso; revert h; decide)
+
+theorem includeTarget_mem {env : Env} {root im : Mod} {a : Stmt} (h : env.includeTarget root a = some im) :
+    im ∈ env.reg.mods := by
+  unfold Env.includeTarget at h
+  split at h
+  · exact findModule_mem h
+  · cases h
+
+/-- What a call of `toEntry` needs: see the file header. `H + 2` units per tracked node that can
+still be entered, plus the height of the statement when it is not itself tracked. -/
+def need (reg : Registry) (root : Mod) (n : Stmt) (visiting : List NodeId) : Nat :=
+  if isTracked n then
+    (if visiting.contains (nodeId root n) then 1 else free reg visiting * (maxHeight reg + 2))
+  else height n + 1 + free reg visiting * (maxHeight reg + 2)
+
+/-- Where `toEntry` is called: the root is a loaded module, the node and the scope are statements of it. -/
+structure Inv (env : Env) (root : Mod) (scope : List Stmt) (n : Stmt) : Prop where
+  root_mem : root ∈ env.reg.mods
+  node : Sub n root.stmt
+  scope : ∀ s ∈ scope, Sub s root.stmt
+
+theorem need_pos {env : Env} {root : Mod} {scope : List Stmt} {n : Stmt} (visiting : List NodeId)
+    (inv : Inv env root scope n) : 1 ≤ need env.reg root n visiting := by
+  unfold need
+  split
+  · rename_i ht
+    split
+    · exact Nat.le_refl _
+    · rename_i hv
+      have hv' : visiting.contains (nodeId root n) = false := by simpa using hv
+      have := free_pos (mem_tracked inv.root_mem inv.node ht) hv'
+      calc 1 ≤ 1 * 2 := by omega
+        _ ≤ free env.reg visiting * (maxHeight env.reg + 2) := Nat.mul_le_mul this (by omega)
+  · omega
+
+/-- `need` of a callee entered with `vis'`, bounded through the cases of `need`. -/
+theorem need_le_of {reg : Registry} {root : Mod} {n : Stmt} {vis : List NodeId} {k : Nat}
+    (h1 : 1 ≤ k) (h2 : free reg vis * (maxHeight reg + 2) ≤ k)
+    (h3 : isTracked n = false → height n + 1 + free reg vis * (maxHeight reg + 2) ≤ k) :
+    need reg root n vis ≤ k := by
+  unfold need
+  split
+  · split
+    · exact h1
+    · exact h2
+  · rename_i ht
+    exact h3 (by simpa using ht)
+
+theorem callee_need {env : Env} {root : Mod} {scope : List Stmt} {n : Stmt} {visiting : List NodeId} {fuel : Nat}
+    (inv : Inv env root scope n) (hneed : need env.reg root n visiting ≤ fuel + 1)
+    (hc : ¬ (isTracked n && visiting.contains (nodeId root n)) = true)
+    {root' : Mod} {scope' : List Stmt} {n' : Stmt} {vis' : List NodeId}
+    (hcal : Callee env root scope n visiting root' scope' n' vis') :
+    Inv env root' scope' n' ∧ need env.reg root' n' vis' ≤ fuel := by
+  -- facts about the caller, by its kind
+  have caller : (isTracked n = true ∧ visiting.contains (nodeId root n) = false ∧
+        free env.reg (visiting' root n visiting) * (maxHeight env.reg + 2) + (maxHeight env.reg + 2) ≤ fuel + 1) ∨
+      (isTracked n = false ∧ visiting' root n visiting = visiting ∧
+        height n + 1 + free env.reg visiting * (maxHeight env.reg + 2) ≤ fuel + 1) := by
+    cases ht : isTracked n
+    · right
+      refine ⟨rfl, by simp [visiting', ht], ?_⟩
+      have := hneed
+      unfold need at this
+      rw [if_neg (by rw [ht]; exact Bool.false_ne_true)] at this
+      exact this
+    · left
+      have hv : visiting.contains (nodeId root n) = false := by
+        cases hv : visiting.contains (nodeId root n)
+        · rfl
+        · exact absurd (by rw [ht, hv]; rfl) hc
+      refine ⟨rfl, hv, ?_⟩
+      have hlt : free env.reg (nodeId root n :: visiting) < free env.reg visiting :=
+        free_cons_lt (mem_tracked inv.root_mem inv.node ht) hv
+      have hn : free env.reg visiting * (maxHeight env.reg + 2) ≤ fuel + 1 := by
+        have := hneed
+        unfold need at this
+        rw [if_pos ht, if_neg (by rw [hv]; exact Bool.false_ne_true)] at this
+        exact this
+      have hmul : (free env.reg (nodeId root n :: visiting) + 1) * (maxHeight env.reg + 2) ≤
+          free env.reg visiting * (maxHeight env.reg + 2) := Nat.mul_le_mul_right _ hlt
+      rw [Nat.add_mul, Nat.one_mul] at hmul
+      simp only [visiting', ht, ↓reduceIte]
+      omega
+  cases hcal with
+  | child hcm =>
+    have hsub : Sub n' root.stmt := Sub.child hcm inv.node
+    refine ⟨⟨inv.root_mem, hsub, ?_⟩, ?_⟩
+    · intro s hs
+      cases hs with
+      | head => exact inv.node
+      | tail _ h => exact inv.scope s h
+    · have hcn : height n' < height n := height_child_lt hcm
+      have hcp := height_pos n'
+      have hnH : height n ≤ maxHeight env.reg := sub_height_le_max inv.root_mem inv.node
+      rcases caller with ⟨_, _, hle⟩ | ⟨_, hvis, hle⟩
+      · apply need_le_of
+        · omega
+        · omega
+        · intro _; omega
+      · rw [hvis]
+        apply need_le_of
+        · omega
+        · omega
+        · intro _; omega
+  | uses hfg =>
+    obtain ⟨hkw, ⟨n0, up, hgs, hgm⟩, hloc⟩ := findGrouping_sound hfg
+    have hgt : isTracked n' = true := by simp [isTracked, hkw]
+    have hinv : Inv env root' scope' n' := by
+      rcases hloc with ⟨hroot, pre, hpre⟩ | ⟨hmem, hgs'⟩
+      · subst hroot
+        have hsc : ∀ s ∈ scope', Sub s root'.stmt := fun s hs =>
+          inv.scope s (by rw [hpre]; exact List.mem_append_right _ hs)
+        have hn0 : Sub n0 root'.stmt := hsc n0 (by rw [hgs]; exact List.mem_cons_self ..)
+        exact ⟨inv.root_mem, Sub.child hgm hn0, hsc⟩
+      · have hn0 : n0 = root'.stmt := by
+          rw [hgs'] at hgs
+          cases hgs; rfl
+        subst hn0
+        refine ⟨hmem, Sub.child hgm (.refl _), ?_⟩
+        intro s hs
+        rw [hgs'] at hs
+        cases hs with
+        | head => exact .refl _
+        | tail _ h => cases h
+    refine ⟨hinv, ?_⟩
+    have hnp := height_pos n
+    rcases caller with ⟨_, _, hle⟩ | ⟨_, hvis, hle⟩
+    · apply need_le_of
+      · omega
+      · omega
+      · intro hf; rw [hgt] at hf; cases hf
+    · rw [hvis]
+      apply need_le_of
+      · omega
+      · omega
+      · intro hf; rw [hgt] at hf; cases hf
+  | include_ hf hit =>
+    have him : root' ∈ env.reg.mods := includeTarget_mem hit
+    refine ⟨⟨him, .refl _, fun s hs => by cases hs⟩, ?_⟩
+    have hkw := include_field_kw hf
+    have hnt : isTracked n = true := by
+      rcases hkw with h | h <;> simp [isTracked, h]
+    have hiH : height root'.stmt ≤ maxHeight env.reg := height_le_maxHeight him
+    rcases caller with ⟨_, _, hle⟩ | ⟨hnf, _, _⟩
+    · apply need_le_of
+      · omega
+      · omega
+      · intro _; omega
+    · rw [hnt] at hnf; cases hnf
+
+/-! ### the fuel theorem -/
+
+/-- With fuel at least `need`, the answer of the `0` branch does not reach the result. -/
+theorem toEntryZ_indep (env : Env) (z z' : Mod → Stmt → TState → Entry × TState) :
+    ∀ (fuel : Nat) (root : Mod) (scope : List Stmt) (n : Stmt) (visiting : List NodeId) (st : TState),
+      Inv env root scope n → need env.reg root n visiting ≤ fuel →
+      toEntryZ env z fuel root scope n visiting st = toEntryZ env z' fuel root scope n visiting st := by
+  intro fuel
+  induction fuel with
+  | zero =>
+    intro root scope n visiting st inv h
+    have := need_pos visiting inv
+    omega
+  | succ k ih =>
+    intro root scope n visiting st inv h
+    show toEntryBody env k (toEntryZ env z k) root scope n visiting st =
+      toEntryBody env k (toEntryZ env z' k) root scope n visiting st
+    by_cases hc : (isTracked n && visiting.contains (nodeId root n)) = true
+    · unfold toEntryBody
+      exact skeleton_cyc _ _ _ _ _ _ _ _ _ _ hc
+    · apply body_congr
+      intro root' scope' n' vis' st' hcal
+      obtain ⟨inv', hn'⟩ := callee_need inv h hc hcal
+      exact ih root' scope' n' vis' st' inv' hn'
+
+/-- Closed form: `H + 2` units for every tracked statement of the registry, and one more block
+for the statements above the first tracked one. -/
+def entryNeed (reg : Registry) : Nat := ((tracked reg).length + 1) * (maxHeight reg + 2)
+
+theorem need_le_entryNeed {env : Env} {root : Mod} {scope : List Stmt} {n : Stmt} (visiting : List NodeId)
+    (inv : Inv env root scope n) : need env.reg root n visiting ≤ entryNeed env.reg := by
+  have hf := free_le env.reg visiting
+  have hh : height n ≤ maxHeight env.reg := sub_height_le_max inv.root_mem inv.node
+  have hmul : free env.reg visiting * (maxHeight env.reg + 2) ≤ (tracked env.reg).length * (maxHeight env.reg + 2) :=
+    Nat.mul_le_mul_right _ hf
+  unfold entryNeed
+  rw [Nat.add_mul, Nat.one_mul]
+  apply need_le_of
+  · omega
+  · omega
+  · intro _; omega
+
+/-- **Fuel bound of `toEntry`.**  For a call on a statement of a loaded module with fuel at least
+`entryNeed`, `toEntry` coincides with `toEntryZ z` for every `z`: whatever the out-of-fuel branch
+would answer does not matter, the recursion never reaches it. -/
+theorem toEntry_fuel (env : Env) (fuel : Nat) (root : Mod) (scope : List Stmt) (n : Stmt) (visiting : List NodeId)
+    (st : TState) (inv : Inv env root scope n) (hfuel : entryNeed env.reg ≤ fuel)
+    (z : Mod → Stmt → TState → Entry × TState) :
+    toEntry env fuel root scope n visiting st = toEntryZ env z fuel root scope n visiting st := by
+  rw [← toEntryZ_oof]
+  exact toEntryZ_indep env _ _ fuel root scope n visiting st inv (Nat.le_trans (need_le_entryNeed visiting inv) hfuel)
+
+/-- A top-level call of `processAll`: the module statement itself. -/
+theorem Inv.top {env : Env} {m : Mod} (hm : m ∈ env.reg.mods) : Inv env m [] m.stmt :=
+  ⟨hm, .refl _, fun _ h => by cases h⟩
+
+/-- The call `processAll` makes for a deviate statement. -/
+theorem Inv.deviate {env : Env} {m : Mod} {dv ds : Stmt} (hm : m ∈ env.reg.mods) (hdv : dv ∈ m.stmt.all "deviation")
+    (hds : ds ∈ dv.all "deviate") : Inv env m [dv, m.stmt] ds := by
+  have h1 : Sub dv m.stmt := Sub.child (mem_all_subs hdv) (.refl _)
+  refine ⟨hm, Sub.child (mem_all_subs hds) h1, ?_⟩
+  intro s hs
+  cases hs with
+  | head => exact h1
+  | tail _ h =>
+    cases h with
+    | head => exact .refl _
+    | tail _ h => cases h
+
+/-! ### `entryNeed` against the statement count -/
+
+/-- The sum the model's `entryFuel` is computed from. -/
+def totalStmts (reg : Registry) : Nat := reg.mods.foldl (fun a m => a + stmtCount m.stmt) 0
+
+theorem entryFuel_eq (reg : Registry) : entryFuel reg = (totalStmts reg + 2) * (totalStmts reg + 2) + 64 := rfl
+
+mutual
+theorem height_le_count : (s : Stmt) → height s ≤ stmtCount s
+  | .mk _ _ _ _ _ _ subs => by
+    have := heightL_le_countL subs
+    simp only [height, stmtCount]; omega
+theorem heightL_le_countL : (l : List Stmt) → height.heightL l ≤ stmtCount.countL l
+  | [] => Nat.le_refl _
+  | s :: ss => by
+    have h1 := height_le_count s
+    have h2 := heightL_le_countL ss
+    simp only [height.heightL, stmtCount.countL]; omega
+end
+
+mutual
+theorem trackedIn_le_count : (s : Stmt) → (trackedIn s).length ≤ stmtCount s
+  | .mk kw ha arg file line col subs => by
+    have := trackedInL_le_countL subs
+    simp only [trackedIn, stmtCount, List.length_append]
+    split <;> simp <;> omega
+theorem trackedInL_le_countL : (l : List Stmt) → (trackedIn.trackedInL l).length ≤ stmtCount.countL l
+  | [] => Nat.le_refl _
+  | s :: ss => by
+    have h1 := trackedIn_le_count s
+    have h2 := trackedInL_le_countL ss
+    simp only [trackedIn.trackedInL, stmtCount.countL, List.length_append]; omega
+end
+
+theorem foldl_sum_shift (l : List Mod) (a : Nat) :
+    l.foldl (fun a m => a + stmtCount m.stmt) a = a + l.foldl (fun a m => a + stmtCount m.stmt) 0 := by
+  induction l generalizing a with
+  | nil => rfl
+  | cons x xs ih =>
+    simp only [List.foldl_cons, Nat.zero_add]
+    rw [ih (a + stmtCount x.stmt), ih (stmtCount x.stmt)]; omega
+
+theorem tracked_le_total (reg : Registry) : (tracked reg).length ≤ totalStmts reg := by
+  unfold tracked totalStmts
+  induction reg.mods with
+  | nil => exact Nat.le_refl _
+  | cons x xs ih =>
+    simp only [List.flatMap_cons, List.length_append, List.length_map, List.foldl_cons, Nat.zero_add]
+    rw [foldl_sum_shift]
+    have := trackedIn_le_count x.stmt
+    omega
+
+theorem maxHeight_le_total (reg : Registry) : maxHeight reg ≤ totalStmts reg := by
+  unfold maxHeight totalStmts
+  suffices h : ∀ (l : List Mod) (a b : Nat), a ≤ b →
+      l.foldl (fun a m => max a (height m.stmt)) a ≤ l.foldl (fun a m => a + stmtCount m.stmt) b from h _ 0 0 (Nat.le_refl _)
+  intro l
+  induction l with
+  | nil => intro a b h; exact h
+  | cons x xs ih =>
+    intro a b h
+    simp only [List.foldl_cons]
+    apply ih
+    have := height_le_count x.stmt
+    omega
+
+/-- `entryNeed` is at most quadratic in the number of statements loaded. -/
+theorem entryNeed_le_quadratic (reg : Registry) : entryNeed reg ≤ (totalStmts reg + 1) * (totalStmts reg + 2) := by
+  unfold entryNeed
+  exact Nat.mul_le_mul (Nat.succ_le_succ (tracked_le_total reg)) (Nat.add_le_add_right (maxHeight_le_total reg) 2)
+
+/-- The fuel the model passes is enough. -/
+theorem entryNeed_le_entryFuel (reg : Registry) : entryNeed reg ≤ entryFuel reg := by
+  rw [entryFuel_eq]
+  have h := entryNeed_le_quadratic reg
+  have h2 : (totalStmts reg + 1) * (totalStmts reg + 2) ≤ (totalStmts reg + 2) * (totalStmts reg + 2) :=
+    Nat.mul_le_mul_right _ (Nat.le_succ _)
+  omega
 
 end Goyang.Lemmas.Fuel
